@@ -176,6 +176,16 @@ package board
 //@   concl [rights] rightsOK(succ(p, m))
 //@   concl [ep]     epOK(succ(p, m))
 //@
+//@ # ---- C10: a position cannot recur two plies later (each side has made one move: the first mover's
+//@ # ---- piece has left its square and cannot have come back), so skipping distance 2 loses nothing;
+//@ # ---- entries at odd distances have the other side to move (MakeMove#post.stm)
+//@ lemma noRecurrenceAtTwo(p $Pos, m1 $Mv, m2 $Mv)
+//@   props C10
+//@   timeout 600
+//@   split pieceAt(p, mvFrom(m1)) in 1..6
+//@   hyp validPos(p) && legal(p, m1) && legal(succ(p, m1), m2)
+//@   concl !samePlacement(succ(succ(p, m1), m2), p)
+//@
 //@ # ---- C05: the pseudo-legality test accepts exactly the rule-defined pseudo-legal encodings
 //@ func (*Board).IsPseudoLegal
 //@   props C05
